@@ -1,4 +1,5 @@
 import IastModel.Rewriter.Literals
+import IastModel.Lemmas.LitBlock
 /-
   C14 — the literal report.  Proved about `add_literal`: only values inside the length window
   (more than 10 and at most 256 bytes) are ever recorded, a value is recorded under its own key, and an
@@ -47,5 +48,48 @@ theorem disabled_no_report (enabled : Bool) (p : Node) (h : enabled = false) :
     (if enabled then some (collectLits p []) else none) = none := by simp [h]
 
 example : litLengthOk "0123456789a" = true ∧ litLengthOk "0123456789" = false := by decide +kernel
+
+open Node in
+theorem cl_insertPrologue_window (lv : String) (sp0 : Span) (dsts : List String) (hw : litLengthOk lv = true) (p : Node) :
+    cl lv sp0 (insertPrologue (prologue dsts) p) = cl lv sp0 p := by
+  unfold insertPrologue
+  split
+  · rename_i k sp ns' body vs
+    have := cl_insertPrologue lv sp0 (prologue dsts) k sp ns' body vs
+    simp only [insertPrologue] at this
+    rw [this, prologue_cl lv sp0 dsts hw]; rfl
+  · rfl
+
+/-- **Instrumentation adds no reportable string-literal node and removes none** (the node-set half of
+    "never adds, removes … entries").  For every configuration, fuel and program (hypotheses as in
+    `master`: the source does not mention the hook namespace and its `+=` targets are of the parser's
+    shapes), unless the rewrite is refused: for every value `lv` inside the report window and every span,
+    the instrumented program — prologue included — contains the string-literal node `(lv, span)` exactly
+    when the source does, and at least as many copies (operands are cloned into hook arguments with their
+    spans; the collector's set-by-span removes the copies again).
+
+    PARTIAL with respect to the property: the statement is about the set of literal nodes, not about the
+    collector's context rules (the `require(…)` / `new RegExp(…)` exclusions and the initialised name),
+    which depend on where the copies end up; those are decided by the differential oracle. -/
+theorem instrumentation_keeps_reportable_literal_nodes_partial (cfg : Config) (fuel : Nat) (p : Node)
+    (h0 : ns p = 0) (ht : targetsOk p = true)
+    (hnc : (transformProgram cfg fuel p).status ≠ .cancelled)
+    (lv : String) (sp0 : Span) (hw : litLengthOk lv = true) :
+    cl lv sp0 p ≤ cl lv sp0 (transformProgram cfg fuel p).out ∧
+    (cl lv sp0 p = 0 ↔ cl lv sp0 (transformProgram cfg fuel p).out = 0) := by
+  obtain ⟨p1, hl, hout⟩ := literal_nodes_preserved_master cfg fuel p h0 ht hnc
+  have h := hl lv sp0
+  have e : cl lv sp0 (transformProgram cfg fuel p).out = cl lv sp0 p1 := by
+    rw [hout]; split
+    · exact cl_insertPrologue_window lv sp0 cfg.dsts hw p1
+    · rfl
+  rw [e]
+  exact ⟨h.1, h.2, fun h1 => by have := h.1; omega⟩
+
+/-- the operation visitor alone, for every literal value -/
+theorem visit_keeps_literal_nodes (cfg : Config) (f : Nat) (root : Bool) (n : Node) (s : St)
+    (h0 : ns n = 0) (ht : targetsOk n = true) (hs : s.status ≠ .cancelled) (lv : String) (sp0 : Span) :
+    cl lv sp0 n ≤ cl lv sp0 (visit cfg f root n s).1 ∧ (cl lv sp0 n = 0 → cl lv sp0 (visit cfg f root n s).1 = 0) :=
+  visit_L lv sp0 cfg (okCfg cfg) (cfgOk_dsts cfg) f root n s h0 ht hs
 
 end IastModel.C14
